@@ -9,6 +9,6 @@ for m in rk.method_list:
     out["tabs"][m] = {"a": np.asarray(a).tolist(), "b": np.asarray(b).tolist(), "c": np.asarray(c).tolist(),
                       "stage": int(r.stage), "order": [int(x) for x in r.order],
                       "ti": np.atleast_2d(r.runge_kutta_ti_coefficient()).tolist()}
-for o in range(0, 13):
+for o in range(0, 31):
     out["taylor"][str(o)] = rk.TaylorExpansion(o).coeff.tolist()
 print("RESULT " + json.dumps(out))
